@@ -37,7 +37,9 @@ Step0 ==
   \* handle, a zero-sized one wherever the implementation chooses; no other call drops anything
   /\ Viol("C13", "NeedsDropDroppedExactlyOnce",
           IF op.k = "drop" /\ st.hs[op.h].kind = "dc" /\ ~st.hs[op.h].det THEN vd[op.h] + e.drops = 1
-          ELSE IF op.k = "drop" \/ (op.k = "adc" /\ op.z) THEN e.drops <= 1
+          \* (after detach the value is the caller's: the handle drops nothing)
+          ELSE IF op.k = "drop" THEN e.drops = 0
+          ELSE IF op.k = "adc" /\ op.z THEN e.drops <= 1
           ELSE e.drops = 0)
   /\ Viol("C13", "FileRemovedExactlyThen", (s2.file = "none") \/ (e.file_exists = ~(holders = 0 /\ s2.rod)))
   /\ Viol("C13", "NoPanic", e.res # "panic")
